@@ -248,9 +248,13 @@ def global_header_rules(ctx):
                    "self.write_cell_data_at_level(outfile, lv, all_data_bylevel[lv], indexes[lv])"]
     ctx.check(ok, f"{P}.SEQUENCE", sl.site, "global header with the slice's field names and box ids, then every level's "
                                             "data with that level's arrays and box ids", f"calls are {calls}")
-    e = [norm(n) for n in walk_no_nested(sl.node) if isinstance(n, ast.Assign)]
-    ctx.check("all_data_bylevel, indexes, headers = self.interpolate_bylevel(plane_data)" in e, f"{P}.SEQUENCE", sl.site,
-              "per-level interpolation feeds the writer", "interpolate_bylevel call changed", key="bylevel")
+    # the first two results of interpolate_bylevel(plane_data) are the arrays and the box ids the writers get
+    e = [[norm(t) for t in n.targets[0].elts[:2]] for n in walk_no_nested(sl.node)
+         if isinstance(n, ast.Assign) and norm(n.value) == "self.interpolate_bylevel(plane_data)" and
+         isinstance(n.targets[0], ast.Tuple) and len(n.targets[0].elts) == 3]
+    ctx.check(e == [["all_data_bylevel", "indexes"]], f"{P}.SEQUENCE", sl.site,
+              "per-level interpolation of the sliced planes feeds the writer: (arrays, box ids, _) = "
+              "interpolate_bylevel(plane_data)", f"interpolate_bylevel(plane_data) results are bound to {e}", key="bylevel")
 
 
 def run(ctx):
